@@ -108,6 +108,10 @@ def gen_cases(ctx, ngroups):
         if g % 2 == 0:
             # the same FILE object first on a regular file, then reopened on a FIFO: both passes must present the same members
             out.append(Case("rdrreopen %s %s %s" % (pol, ";".join(toks), d.hex()), tags={"reopen", "c-only"}, judge=judge_reopen, note=("reopen", 10 ** 6 + gid, 0)))
+            # … and the same with a pure LISTING history (every member's data is passed over: the skip is what differs between a file and a pipe)
+            # (on the archive with members of 4096·k bytes: a skip that stays inside stdio's buffer proves nothing)
+            out.append(Case("rdrreopen %s %s %s" % (pol, ";".join(["n"] * 8), sd.hex()), tags={"reopen", "reopen-listing", "c-only"}, judge=judge_reopen,
+                            note=("reopen", 2 * 10 ** 6 + gid, 0)))
         gid += 1
     # a member whose data is 2 GiB and more, SKIPPED on a seekable FILE (a sparse file: header, a hole, the later members): the seek
     # offset is a long, not a 32-bit int – the later members are the same as from any other kind of source / read on their own
